@@ -96,6 +96,16 @@ func pathVarsOf(sp *spec.Spec, sv *spec.Service, m *spec.Method, escPath string)
 	segs := strings.Split(strings.Trim(escPath, "/"), "/")
 	for ri := range m.HTTP.Routes {
 		ts := strings.Split(strings.Trim(cases.FullPath(sp, sv, m, ri), "/"), "/")
+		if n := len(ts); n > 0 && strings.HasPrefix(ts[n-1], "{*") && len(segs) >= n-1 {
+			// trailing catch-all: the rest of the path, unescaped piece by piece
+			rest := segs[n-1:]
+			for i := range rest {
+				if u, err := url.PathUnescape(rest[i]); err == nil {
+					rest[i] = u
+				}
+			}
+			segs = append(append([]string{}, segs[:n-1]...), url.PathEscape(strings.Join(rest, "/")))
+		}
 		if len(ts) != len(segs) {
 			continue
 		}
